@@ -141,6 +141,10 @@ struct State
 {
     std::optional<dj::database> db;
     std::optional<ev2::engine_library> lib;  // 2.x only, when created via library ops
+    // table objects obtained once and kept (ops carrying "held": true use them; all others obtain a fresh object per call)
+    std::optional<ev2::track_table> held_tt;
+    std::optional<ev2::playlist_table> held_pt;
+    std::optional<ev2::playlist_entity_table> held_pe;
     std::string schema_name;
     bool is_v2 = false;
     std::map<std::string, dj::track> tracks;
@@ -154,6 +158,9 @@ struct State
     {
         tracks.clear();
         crates.clear();
+        held_tt.reset();
+        held_pt.reset();
+        held_pe.reset();
         lib.reset();
         db.reset();
         names.clear();
